@@ -100,7 +100,15 @@ package fastaio
 //@   before send#4: assert [record] fr.Idx == hdrs - 2 && len(fr.Seq) == gLen && fr.Score == gScore && fr.Count_A == gA && fr.Count_C == gC && fr.Count_G == gG && fr.Count_T == gT && forall(j, 0, len(fr.Seq), isCode(fr.Seq[j]))
 //@   after send#4: do if hdrs == 2 { gWidth = gLen }; gLen = 0; gScore = 0; gA = 0; gC = 0; gG = 0; gT = 0
 //@   before send#8: assert [lastrecord] fr.Idx == hdrs - 1 && len(fr.Seq) == gLen && fr.Score == gScore && fr.Count_A == gA && fr.Count_C == gC && fr.Count_G == gG && fr.Count_T == gT && forall(j, 0, len(fr.Seq), isCode(fr.Seq[j]))
+//@   # C16: a record's Description is its header line without '>' and its ID the first whitespace-delimited token of it
+//@   after assign:description#1: assert [header.desc] description == string(line[1:])
+//@   after assign:description#2: assert [header.desc] description == string(line[1:])
+//@   after assign:id#1: assert [header.id] id == fieldat(description, 0)
+//@   after assign:id#2: assert [header.id] id == fieldat(description, 0)
+//@   before send#4: assert [record.id] fr.ID == id && fr.Description == description
+//@   before send#8: assert [lastrecord.id] fr.ID == id && fr.Description == description
 //@   ensures [c18.exclusive] len(sent(cErr)) + len(sent(cDone)) == 1
+//@   ensures [c18.width] forall(t, 0, len(sent(chnl)), len(sent(chnl)[t].Seq) == len(sent(chnl)[0].Seq))
 //@   ensures [local.strict.count] implies(len(sent(cErr)) == 0, len(sent(chnl)) == hdrs && hdrs >= 1)
 //@   ensures [idx] forall(t, 0, len(sent(chnl)), sent(chnl)[t].Idx == t)
 //@ # the same specification state machine (hdrs, gLen, gWidth) is the contract of every reader, so they agree with one
@@ -129,7 +137,15 @@ package fastaio
 //@   before send#8: assert [lastrecord.idx] fr.Idx == hdrs - 1
 //@   before send#8: assert [lastrecord.len] len(fr.Seq) == gLen
 //@   before send#8: assert [lastrecord.codes] forall(j, 0, len(fr.Seq), isCode(fr.Seq[j]))
+//@   # C16: a record's Description is its header line without '>' and its ID the first whitespace-delimited token of it
+//@   after assign:description#1: assert [header.desc] description == string(line[1:])
+//@   after assign:description#2: assert [header.desc] description == string(line[1:])
+//@   after assign:id#1: assert [header.id] id == fieldat(description, 0)
+//@   after assign:id#2: assert [header.id] id == fieldat(description, 0)
+//@   before send#4: assert [record.id] fr.ID == id && fr.Description == description
+//@   before send#8: assert [lastrecord.id] fr.ID == id && fr.Description == description
 //@   ensures [c18.exclusive] len(sent(cErr)) + len(sent(cDone)) == 1
+//@   ensures [c18.width] forall(t, 0, len(sent(chnl)), len(sent(chnl)[t].Seq) == len(sent(chnl)[0].Seq))
 //@   ensures [local.strict.count] implies(len(sent(cErr)) == 0, len(sent(chnl)) == hdrs && hdrs >= 1)
 //@   ensures [idx] forall(t, 0, len(sent(chnl)), sent(chnl)[t].Idx == t)
 
@@ -151,7 +167,15 @@ package fastaio
 //@   before append#1: assert [record] fr.Idx == hdrs - 2 && len(fr.Seq) == gLen && forall(j, 0, len(fr.Seq), isCode(fr.Seq[j]))
 //@   after append#1: do if hdrs == 2 { gWidth = gLen }; gLen = 0
 //@   before append#3: assert [lastrecord] fr.Idx == hdrs - 1 && len(fr.Seq) == gLen && forall(j, 0, len(fr.Seq), isCode(fr.Seq[j]))
+//@   # C16: a record's Description is its header line without '>' and its ID the first whitespace-delimited token of it
+//@   after assign:description#1: assert [header.desc] description == string(line[1:])
+//@   after assign:description#2: assert [header.desc] description == string(line[1:])
+//@   after assign:id#1: assert [header.id] id == fieldat(description, 0)
+//@   after assign:id#2: assert [header.id] id == fieldat(description, 0)
+//@   before append#1: assert [record.id] fr.ID == id && fr.Description == description
+//@   before append#3: assert [lastrecord.id] fr.ID == id && fr.Description == description
 //@   ensures [local.strict.count] implies(result2 == nil, len(result1) == hdrs && hdrs >= 1)
+//@   ensures [c18.width] implies(result2 == nil, forall(t, 0, len(result1), len(result1[t].Seq) == len(result1[0].Seq)))
 //@   ensures [nonempty] implies(result2 == nil, len(result1) >= 1)
 //@   ensures [idx] implies(result2 == nil, forall(t, 0, len(result1), result1[t].Idx == t && result1[t].Count_A == 0 && result1[t].Count_C == 0 && result1[t].Count_G == 0 && result1[t].Count_T == 0))
 //@   ensures [error.empty] implies(result2 != nil, len(result1) == 0)
@@ -171,7 +195,15 @@ package fastaio
 //@   before send#4: assert [record] fr.Idx == hdrs - 2 && len(fr.Seq) == gLen && fr.Seq == gSeq
 //@   after send#4: do if hdrs == 2 { gWidth = gLen }; gLen = 0; gSeq = ""
 //@   before send#7: assert [lastrecord] fr.Idx == hdrs - 1 && len(fr.Seq) == gLen && fr.Seq == gSeq
+//@   # C16: a record's Description is its header line without '>' and its ID the first whitespace-delimited token of it
+//@   after assign:description#1: assert [header.desc] description == line[1:]
+//@   after assign:description#2: assert [header.desc] description == line[1:]
+//@   after assign:id#1: assert [header.id] id == fieldat(description, 0)
+//@   after assign:id#2: assert [header.id] id == fieldat(description, 0)
+//@   before send#4: assert [record.id] fr.ID == id && fr.Description == description
+//@   before send#7: assert [lastrecord.id] fr.ID == id && fr.Description == description
 //@   ensures [c18.exclusive] len(sent(cErr)) + len(sent(cdone)) == 1
+//@   ensures [c18.width] forall(t, 0, len(sent(chnl)), len(sent(chnl)[t].Seq) == len(sent(chnl)[0].Seq))
 //@   ensures [local.strict.count] implies(len(sent(cErr)) == 0, len(sent(chnl)) == hdrs && hdrs >= 1)
 //@   ensures [idx] forall(t, 0, len(sent(chnl)), sent(chnl)[t].Idx == t)
 
